@@ -205,7 +205,10 @@ class Worker:
 
     def handle_error(self, req, client, addr, exc):
         request_start = datetime.now()
-        addr = addr or ('', -1)  # unix socket case
+        if not isinstance(addr, tuple):
+            # unix socket case: no address at all, or the path the client
+            # bound its socket to - not an (ip, port) pair either way
+            addr = (addr or '', -1)
         if isinstance(exc, (
             InvalidRequestLine, InvalidRequestMethod,
             InvalidHTTPVersion, InvalidHeader, InvalidHeaderName,
